@@ -587,4 +587,76 @@ class Smiv1ForeignMembers(object):
         return 'ok' if not vs else 'bad', vs, 1
 
 
-FAMILIES = [Tables(), TablesWithTexts(), Lists(), Compliance(), ImportSpellings(), NamesOfEarlierImports(), ShippedTemplates(), Smiv1ForeignMembers()]
+class TwoEditionsOfTheTableModule(object):
+    name = 'two-editions-of-a-table-module-in-one-call'
+    describe = ('SLOT-MIB exists twice in the source: in its own file and, as another edition with the same symbols but another SEQUENCE '
+                '(what is a column in one edition is a scalar in the other, the INDEX differs), inside the file of MATE-MIB; every request '
+                'order that makes one or the other come first; both back ends: tables, rows, columns, scalars and the INDEX of SLOT-MIB '
+                'are those of the edition that was compiled (told by a marker node)')
+
+    def edition(self, n):
+        cols = ('slotIdx', 'slotShelf') if n == 0 else ('slotIdx', 'slotUptime')
+        scalar = 'slotUptime' if n == 0 else 'slotShelf'
+        parent = {cols[0]: 'slotEntry 1', cols[1]: 'slotEntry 2', scalar: 'slotRoot 5'}
+        objs = ''.join('%s OBJECT-TYPE SYNTAX Integer32 MAX-ACCESS read-only STATUS current DESCRIPTION "d" ::= { %s }\n' % (name, parent[name])
+                       for name in ('slotIdx', 'slotShelf', 'slotUptime'))
+        return ('SLOT-MIB DEFINITIONS ::= BEGIN\nIMPORTS OBJECT-TYPE, Integer32, enterprises FROM SNMPv2-SMI;\n'
+                'slotRoot OBJECT IDENTIFIER ::= { enterprises 40 }\nmarker OBJECT IDENTIFIER ::= { slotRoot %d }\n'
+                'slotTable OBJECT-TYPE SYNTAX SEQUENCE OF SlotEntry MAX-ACCESS not-accessible STATUS current DESCRIPTION "d" ::= { slotRoot 1 }\n'
+                'slotEntry OBJECT-TYPE SYNTAX SlotEntry MAX-ACCESS not-accessible STATUS current DESCRIPTION "d" INDEX { %s } ::= { slotTable 1 }\n'
+                'SlotEntry ::= SEQUENCE { %s Integer32, %s Integer32 }\n%sEND\n' % (100 + n, cols[n], cols[0], cols[1], objs)), cols, scalar
+
+    MATE = 'MATE-MIB DEFINITIONS ::= BEGIN\nIMPORTS enterprises FROM SNMPv2-SMI;\nmateRoot OBJECT IDENTIFIER ::= { enterprises 41 }\nEND\n'
+    USER = ('USER-MIB DEFINITIONS ::= BEGIN\nIMPORTS slotRoot FROM SLOT-MIB mateRoot FROM MATE-MIB;\n'
+            'userNode OBJECT IDENTIFIER ::= { slotRoot 9 }\nuserOther OBJECT IDENTIFIER ::= { mateRoot 9 }\nEND\n')
+
+    def blocks(self, tier):
+        return [{'backend': b} for b in ('json', 'pysnmp')]
+
+    def cases(self, block, tier):
+        for own in (0, 1):
+            for mate_first in (0, 1):
+                for req in (['USER-MIB'], ['MATE-MIB', 'USER-MIB'], ['SLOT-MIB', 'MATE-MIB'], ['MATE-MIB', 'SLOT-MIB']):
+                    yield {'backend': block['backend'], 'own': own, 'mate_first': mate_first, 'req': req}
+
+    def run_case(self, case):
+        texts = env.base_texts()
+        other = self.edition(1 - case['own'])[0]
+        texts.update({'SLOT-MIB': self.edition(case['own'])[0], 'USER-MIB': self.USER,
+                      'MATE-MIB': (self.MATE + other) if case['mate_first'] else (other + self.MATE)})
+        sig = 'C06|two-editions|%s' % case['backend']
+        parser = env.shared_parser('smiV2')
+        parser.reset()
+        resj, wj = env.compile_set(texts, case['req'], codegen='json', dialect=parser)
+        parser.reset()
+        res, written = env.compile_set(texts, case['req'], codegen=case['backend'], dialect=parser)
+        if res.get('SLOT-MIB') != 'compiled' or resj.get('SLOT-MIB') != 'compiled':
+            return 'notcompiled', [('%s|not-compiled' % sig, '%r' % (getattr(res.get('SLOT-MIB'), 'error', None),))], 2
+        marker = json.loads(wj['SLOT-MIB']).get('marker', {}).get('oid', '')
+        n = 0 if marker.endswith('.100') else 1
+        _, cols, scalar = self.edition(n)
+        want = {'slotTable': 'table', 'slotEntry': 'row', cols[0]: 'column', cols[1]: 'column', scalar: 'scalar'}
+        vs = []
+        if case['backend'] == 'json':
+            doc = json.loads(written['SLOT-MIB'])
+            for sym, nt in sorted(want.items()):
+                if doc.get(sym, {}).get('nodetype') != nt:
+                    vs.append(('%s|nodetype|%s-as-%s' % (sig, nt, doc.get(sym, {}).get('nodetype')), 'symbol %s, compiled edition %d' % (sym, n)))
+            idx = [i.get('object') for i in doc.get('slotEntry', {}).get('indices') or []]
+            if idx != [cols[n]]:
+                vs.append(('%s|indices' % sig, 'INDEX { %s }, document %r' % (cols[n], idx)))
+        else:
+            b, ns, err = load_pysnmp({LOCAL: written['SLOT-MIB']}) if False else (None, None, None)
+            rb = pysnmp_rec.RecBuilder()
+            ns, err = pysnmp_rec.run_module(written['SLOT-MIB'], rb, 'SLOT-MIB')
+            if err:
+                vs.append(('%s|does-not-execute|%s' % (sig, err.split(':')[0]), err[:300]))
+            else:
+                for sym, nt in sorted(want.items()):
+                    kind = getattr(ns.get(sym), 'kind', None)
+                    if kind != refir.PYSNMP_OT[nt]:
+                        vs.append(('%s|class|%s-as-%s' % (sig, nt, kind), 'symbol %s, compiled edition %d' % (sym, n)))
+        return 'edition-%d' % n, vs, 2
+
+
+FAMILIES = [Tables(), TablesWithTexts(), Lists(), Compliance(), ImportSpellings(), NamesOfEarlierImports(), ShippedTemplates(), Smiv1ForeignMembers(), TwoEditionsOfTheTableModule()]
